@@ -362,6 +362,10 @@ def analyse(meta, evs, pushes):
                     keyev.setdefault(k, []).append((e['seq'], 'redis', (side, who, lname, pv)))
                 else:
                     unexpected.append({'seq': e['seq'], 'node': e['node'], 'who': who, 'cmd': name.decode()})
+        elif t == 'commit0':
+            for k, (dp, dn) in dest.items():
+                if dp == e['proxy']:
+                    keyev.setdefault(k, []).append([e['seq'], 'cmt0', None])
         elif t == 'phase':
             phases.append((e['seq'], e['src'], e['dst']))
         elif t == 'final':
@@ -396,6 +400,8 @@ def analyse(meta, evs, pushes):
                 toks.append('inv %d %s %s %s %s' % (idx[x['id']], kd, v, push, '1' if x['op']['proxy'] == 'P1' else '0'))
             elif kind == 'kill':
                 toks.append('kill %d' % idx[x['id']])
+            elif kind == 'cmt0':
+                toks.append('cmt0')
             elif kind == 'rep':
                 c, _ = sub_reply(x['op'], x)
                 toks.append('rep %d %s' % (idx[x['id']], c))
